@@ -411,7 +411,7 @@ def wait_timeout_jobs(start_run=1):
     run = start_run
     ds = lambda key: {"kind": "ds", "hash": "h1", "key": key}
     for paytimeout in (1, 2):
-        for outcome in ("pending", "error", "failed_warn", "transport", "nocode", "pending_nopre"):
+        for outcome in ("pending", "error", "failed_warn", "transport", "nocode", "pending_nopre", "error_neg"):
             for nparts in (1, 2):
                 for final in ("complete", "failed"):
                     cfg = dict(CFG_A); cfg["mpp"] = 3; cfg["paytimeout"] = paytimeout
@@ -575,7 +575,7 @@ def many_parts_jobs(start_run=1):
     D = lambda sel: {"a": "deliver", "sel": sel}
     for n in (9, 12, 17):
         for winner in (1, n // 2, n, 0):
-            for outcome in ("pending", "error", "failed_warn"):
+            for outcome in ("pending", "error", "failed_warn", "error_neg"):
                 for xpay in (False, True):
                     sc = {"cfg": dict(cfg, xpay=xpay), "invs": invs_for(10), "htlcs": [], "probe": []}
                     s = [{"a": "paycall", "hash": "h1", "inv": 1}, X(payc)]
